@@ -210,6 +210,15 @@ def run(chk):
                 objs = [cls(i, [3, 3, 10], -1.0, [9000.0], -10.0, *pos, N0=N0, **ex) for i in (imf_a, imf_b, imf_c)]
                 objs.append(cls.from_powerlaw(mbk, sl, [3, 3, 10], -1.0, [9000.0], -10.0, *pos, N0=N0, **ex))
                 arrs = [np.r_[o.Ns[0], o.alpha[0], o.Ms[0], o.Nr.WD[0], o.Nr.BH[0], o.Mr.BH[0]] for o in objs]
+            # the explicit N0 may be any real number type (an element of an integer array, a float32, a 0-d array)
+            if cname != "InitialBHPopulation":
+                for n0_alt in (np.int64(int(N0)), np.float32(N0), np.array(N0), int(N0)):
+                    o_t = cls(imf_b, [3, 3, 10], -1.0, [9000.0], -10.0, *pos, N0=n0_alt, **ex)
+                    a_t = np.r_[o_t.Ns[0], o_t.alpha[0], o_t.Ms[0], o_t.Nr.WD[0], o_t.Nr.BH[0], o_t.Mr.BH[0]]
+                    if not np.allclose(np.nan_to_num(a_t), np.nan_to_num(arrs[0]), rtol=1e-6, atol=1e-6 * N0):
+                        chk.fail("an IMF object's own N0 is irrelevant once N0 is passed explicitly; from_powerlaw is equivalent to passing the IMF object",
+                                 dict(cls=cname, variant="N0 given as %s" % type(n0_alt).__name__, extra=extra),
+                                 dict(total_stars=float(np.nansum(o_t.Ns[0])), expected=float(np.nansum(objs[0].Ns[0]))))
             # the SAME IMF object used again for a population twice as large (and a rate twice as strong): nothing may be remembered
             # from the first construction - the result equals the one built from scratch at that size
             if cname == "InitialBHPopulation":
